@@ -2,6 +2,7 @@ package checks
 
 import (
 	"encoding/json"
+	"strings"
 	"testing"
 
 	"pgregory.net/rapid"
@@ -64,7 +65,7 @@ func TestC08(t *testing.T) {
 	r := kit.New(t, "C08")
 	defer r.Finish()
 	r.SetRule("(schema, document) pairs: G6 schemas (interfaces implementing interfaces, unions, oneOf inputs, repeatable directives, argument and input-field defaults, custom scalars, nested list/non-null) x documents that are (a) valid by construction (G8), (b) the same with 1-3 faults from a catalogue of " + sprintf("%d", gen.NumDocFaults()) +
-		" operators covering every rule (G9), (c) type-blind documents over the schema's name pools; plus a corpus of witnesses. oracle: len(Validate) == 0 <=> the reference validator (spec section 5 + introspection depth) reports no violation. " +
+		" operators covering every rule (G9), (c) type-blind documents over the schema's name pools, (d) dense-overlap documents on a fixed schema (colliding response names at every level, fragments meeting under exclusive and common parents, cycles, twin recursion), (e) introspection documents with fragments on __Type spread at several depths; plus a corpus of witnesses. oracle: len(Validate) == 0 <=> the reference validator (spec section 5 + introspection depth) reports no violation. " +
 		"non-trivial = document with a fragment or an argument; distinct by (schema, document) text")
 	r.Assume("reference validator harness/ref/validate.go agrees with the 398 applicable imported graphql-js cases (TestSelfValidator); interfaces/unions without object possible types, @skip/@include on subscription roots, float literals overflowing float64 and fragment variable definitions are outside the generated domain")
 	for _, c := range []string{"corpus", "valid", "faulty", "blind", "overlap", "introspection"} {
@@ -124,7 +125,7 @@ func TestC08(t *testing.T) {
 					}
 				}
 				if len(want) == 0 || !found {
-					r.HarnessErrorf("fault %s (rule %s) is not reported by the reference: %v\nschema: %s\nquery: %s", g.Faults[0].Name, g.Faults[0].Rule, want, c.Schema, c.Query)
+					r.HarnessErrorf("fault %s (rule %s) is not reported by the reference: %v\nschema: %s\nquery: %s\nbefore: %s", g.Faults[0].Name, g.Faults[0].Rule, want, c.Schema, c.Query, g.Before)
 					rt.Fatalf("harness error")
 				}
 				for _, f := range g.Faults {
@@ -142,7 +143,7 @@ func TestC08(t *testing.T) {
 			} else {
 				r.Class(check + ":invalid")
 			}
-			r.Case(true, c.Schema+"\x00"+c.Query)
+			r.Case(strings.Contains(c.Query, "...") || strings.Contains(c.Query, "("), c.Schema+"\x00"+c.Query)
 			if r.WantSample(check) {
 				r.Sample(check, c)
 			}
@@ -175,7 +176,7 @@ func TestC08(t *testing.T) {
 					r.Class(check + ":only-rule:" + want[0].Rule)
 				}
 			}
-			r.Case(true, c.Query)
+			r.Case(strings.Contains(c.Query, "...") || strings.Contains(c.Query, "("), c.Query)
 			if r.WantSample(check) {
 				r.Sample(check, c)
 			}
